@@ -41,7 +41,15 @@ echo "## existing test suite with patch (all packages)" >> $log
 # the patch touches it, serialised by a lock; everything else runs normally.
 skip=/transport/websocket
 case "$changed" in *transport/websocket*) skip=/NONE;; esac
-go test -vet=off -count=1 -timeout 10m $(go list ./... | grep -v /MUTATION | grep -v $skip) 2>&1 | grep -v "no test files" >> $log; rc_suite=${PIPESTATUS[0]}
+go test -vet=off -count=1 -timeout 10m $(go list ./... | grep -v /MUTATION | grep -v $skip | grep -v transport/webrtc) 2>&1 | grep -v "no test files" >> $log; rc_suite=${PIPESTATUS[0]}
+# transport/webrtc TestTransport hangs intermittently on the unmodified tree as well (measured 1/12 with and without fixes):
+# run it separately with a short timeout and up to 3 attempts.
+rc_w=1
+for attempt in 1 2 3; do
+  if go test -vet=off -count=1 -timeout 90s ./transport/webrtc/ >> $log 2>&1; then rc_w=0; break; fi
+  echo "## transport/webrtc attempt $attempt did not pass (known intermittent hang), retrying" >> $log
+done
+[ $rc_w -ne 0 ] && rc_suite=1
 echo "## (transport/websocket excluded unless touched: fixed listen port collides between concurrent worktrees; it does not import the changed packages: $(go list -deps ./transport/websocket | grep -c -F -f <(for d in $changed; do echo "github.com/aperturerobotics/bifrost/${d#./}"; done)) matching deps)" >> $log
 git checkout -q -- .
 # now our checks against /repo (serialised with other scripts that patch /repo)
